@@ -141,6 +141,21 @@ func c18Definitions(c *c18Case) *c18Build {
 				}
 				prev = jn
 			}
+			if c.Link == "fanstart" {
+				// four throw events on parallel branches, each with a message flow of its own to the start event of
+				// the SAME waiting process: four instances of it are made at about the same time
+				fk := g.Add(gen.And, p+"_sfork", "")
+				jn := g.Add(gen.And, p+"_sjoin", "")
+				link(fk)
+				for k := 1; k <= 4; k++ {
+					th := g.Add(gen.Throw, fmt.Sprintf("%s_throwG%d", p, k), "")
+					th.Events = []gen.EventDef{{Type: "message", Ref: "msgS"}}
+					g.Connect(fk, th, nil)
+					g.Connect(th, jn, nil)
+					b.behind[p+"_pre"] = append(b.behind[p+"_pre"], th.ID)
+				}
+				prev = jn
+			}
 			if c.Link == "catch2" {
 				// a second throw behind a task of its own: its catch event starts listening (and is
 				// registered with the set) only after the first catch event was woken
@@ -255,7 +270,7 @@ func c18Definitions(c *c18Case) *c18Build {
 		flows = append(flows, `<bpmn:messageFlow id="MF_s" sourceRef="p0_throwS" targetRef="pw_start"/>`,
 			`<bpmn:messageFlow id="MF_c" sourceRef="pw_throwC" targetRef="pw2_start"/>`)
 	}
-	if c.Link == "start" || c.Link == "both" || c.Link == "loopstart" {
+	if c.Link == "start" || c.Link == "both" || c.Link == "loopstart" || c.Link == "fanstart" {
 		g := gen.NewGraph("pw")
 		s := g.Add(gen.Start, "pw_start", "")
 		s.Events = []gen.EventDef{{Type: "message", Ref: "msgS"}}
@@ -265,8 +280,16 @@ func c18Definitions(c *c18Case) *c18Build {
 		g.Connect(t, e, nil)
 		b.graphs = append(b.graphs, g)
 		b.exec = append(b.exec, false)
-		b.links["p0_throwS"] = append(b.links["p0_throwS"], c18Link{len(b.graphs) - 1, "pw_start", "start"})
-		flows = append(flows, `<bpmn:messageFlow id="MF_s" sourceRef="p0_throwS" targetRef="pw_start"/>`)
+		if c.Link == "fanstart" {
+			for k := 1; k <= 4; k++ {
+				th := fmt.Sprintf("p0_throwG%d", k)
+				b.links[th] = append(b.links[th], c18Link{len(b.graphs) - 1, "pw_start", "start"})
+				flows = append(flows, fmt.Sprintf(`<bpmn:messageFlow id="MF_g%d" sourceRef="%s" targetRef="pw_start"/>`, k, th))
+			}
+		} else {
+			b.links["p0_throwS"] = append(b.links["p0_throwS"], c18Link{len(b.graphs) - 1, "pw_start", "start"})
+			flows = append(flows, `<bpmn:messageFlow id="MF_s" sourceRef="p0_throwS" targetRef="pw_start"/>`)
+		}
 	}
 	var parts []string
 	for i, g := range b.graphs {
@@ -288,7 +311,7 @@ func c18Cases(tier string, seed uint64) []fw.Case {
 	}
 	combos = append(combos, []string{"trivial", "trivial", "trivial"}, []string{"task", "trivial", "fork"}, []string{"fork", "task", "task"})
 	for ci, ex := range combos {
-		for _, link := range []string{"none", "start", "catch", "both", "start2", "waitcatch", "catch2", "loopstart", "fanin", "chain"} {
+		for _, link := range []string{"none", "start", "catch", "both", "start2", "waitcatch", "catch2", "loopstart", "fanin", "chain", "fanstart"} {
 			if link != "none" && ex[0] == "trivial" && len(ex) == 1 {
 				// fine: p0 gets the pre task anyway
 			}
@@ -354,7 +377,8 @@ func c18Run(c *c18Case, env *fw.Env, v *fw.V) {
 	ctx, cancel := context.WithCancel(context.Background())
 	defer cancel()
 	engine := bpmn.NewEngine(bpmn.WithEngineContext(ctx))
-	setOpts := []bpmn.Option{bpmn.WithContext(ctx)}
+	// options collected one append at a time, as callers do: the slice handed over has spare capacity
+	setOpts := append(make([]bpmn.Option, 0, 8), bpmn.WithContext(ctx))
 	if c.OwnTracer {
 		// the caller hands the set a tracer of its own (and other options behind it)
 		setOpts = append(setOpts, bpmn.WithTracer(tracing.NewTracer(ctx)), bpmn.WithVariables(map[string]any{"unused": 1}))
